@@ -6,20 +6,20 @@ Import ListNotations.
 
 Definition w2 : list witem := [WInit; WStore mP; WStore mI; WLog cx dt inf [104;105]%N].
 
-(* a workload of 56 operations; after 35 of them key 1 is committed and visible, key 2 is not *)
+(* a workload of 58 operations; after 36 of them key 1 is committed and visible, key 2 is not *)
 Example visible_example :
-  length (trace w2 []) = 56
-  /\ visible (crash_w [] w2 35 None) 1 = true /\ committed_in (firstn 35 (trace w2 [])) 1 = true
-  /\ visible (crash_w [] w2 35 None) 2 = false /\ visible [] 1 = false.
+  length (trace w2 []) = 58
+  /\ visible (crash_w [] w2 36 None) 1 = true /\ committed_in (firstn 36 (trace w2 [])) 1 = true
+  /\ visible (crash_w [] w2 36 None) 2 = false /\ visible [] 1 = false.
 Proof. vm_compute. auto. Qed.
 
-(* in the middle of the second transaction (operation 44, torn model-file write) key 2 is invisible,
+(* in the middle of the second transaction (operation 45, torn model-file write) key 2 is invisible,
    key 1 is still visible and complete *)
 Example torn_model_file_example :
-  nth_error (trace w2 []) 44 = Some (OpenW (model_file 2) [T_MODEL; 2; 1; 1]%N)
-  /\ lookup (crash_w [] w2 44 (Some 2)) (model_file 2) = Some (Torn [T_MODEL; 2]%N)
-  /\ visible (crash_w [] w2 44 (Some 2)) 2 = false
-  /\ visible (crash_w [] w2 44 (Some 2)) 1 = true.
+  nth_error (trace w2 []) 45 = Some (OpenW (model_file 2) [T_MODEL; 2; 1; 1]%N)
+  /\ lookup (crash_w [] w2 45 (Some 2)) (model_file 2) = Some (Torn [T_MODEL; 2]%N)
+  /\ visible (crash_w [] w2 45 (Some 2)) 2 = false
+  /\ visible (crash_w [] w2 45 (Some 2)) 1 = true.
 Proof. vm_compute. auto. Qed.
 
 (* the invariant is not trivially true: a state with a torn model file and no marker violates it *)
@@ -64,22 +64,16 @@ Example log_example :
   /\ read_log (log_file rows) = LCells [CStr [97;44;98;34;99;10;100]%N; CStr [78;65;33]%N].
 Proof. vm_compute. auto. Qed.
 
-(* the dataset store of a completed workload is consistent; so is a crash state outside the index window *)
-Example ds_ok_example :
-  ds_ok (run w2 []) = true /\ ds_ok (crash_w [] w2 25 None) = true /\ ds_ok (crash_w [] w2 22 None) = false
-  /\ dhashes (run w2 []) = [1%N].
-Proof. vm_compute. auto. Qed.
-
-(* the shape guard is executable and holds on real states; store_after_crash_partial's hypotheses are met
-   at crash point 25 of w2 (the first dataset is complete, key 1 is still pending), where storing mI
-   (same dataset, other key) succeeds *)
+(* store_after_crash: its hypotheses are met at crash point 22 of w2 — INSIDE the former defect window
+   (csv written, datainfo and index entry not yet): key 1 is pending, storing mI (same dataset, other key)
+   succeeds and is visible; the executable shape guard holds there *)
 Example store_after_crash_example :
-  shapeb (crash_w [] w2 25 None) = true /\ ds_ok (crash_w [] w2 25 None) = true
-  /\ exists_ (crash_w [] w2 25 None) (pending 1) = true
-  /\ exists_ (crash_w [] w2 25 None) (pending (m_key mI)) = false
-  /\ item_res (WDbStore mI) (crash_w [] w2 25 None) = inr tt
-  /\ lookup (run [WDbStore mI] (crash_w [] w2 25 None)) (model_file 2) = Some (File [T_MODEL; 2; 1; 1]%N).
-Proof. vm_compute. auto 7. Qed.
+  shapeb (crash_w [] w2 22 None) = true
+  /\ exists_ (crash_w [] w2 22 None) (pending 1) = true
+  /\ exists_ (crash_w [] w2 22 None) (pending (m_key mI)) = false
+  /\ item_res (WDbStore mI) (crash_w [] w2 22 None) = inr tt
+  /\ visible (run [WDbStore mI] (crash_w [] w2 22 None)) 2 = true.
+Proof. vm_compute. auto 6. Qed.
 
 (* dataset_faithful: instance with a non-zero link *)
 Example dataset_faithful_example :
@@ -90,7 +84,7 @@ Proof. vm_compute. auto. Qed.
 (* ctx_store_succeeds: a freshly initialised context meets ctx_ok, its annotations file is empty *)
 Example ctx_ok_example :
   ctx_ok (run [WInit] []) /\ read_node (lookup (run [WInit] []) annot_path) = Some []
-  /\ shapeb (run [WInit] []) = true /\ ds_ok (run [WInit] []) = true
+  /\ shapeb (run [WInit] []) = true
   /\ path_exists (run [WInit] []) (name_link sP) = false.
 Proof. unfold ctx_ok. vm_compute. auto 7. Qed.
 
